@@ -133,7 +133,7 @@ func (o optSet) opts(ts time.Time) []state.ChangeOption {
 	return l
 }
 
-func roundTrip[T any](run *vk.Run, r *rand.Rand, kind, scratch string, value T, shape string, equal func(a, b T) bool) {
+func roundTrip[T any](run *vk.Run, r *rand.Rand, kind, scratch string, value, other T, shape string, equal func(a, b T) bool) {
 	st, err := stores.Open(kind, scratch)
 	if err != nil {
 		panic(err)
@@ -142,7 +142,7 @@ func roundTrip[T any](run *vk.Run, r *rand.Rand, kind, scratch string, value T, 
 	bus := ebu.New(ebu.WithStore(st.Store))
 	o := optSet{r.IntN(2) == 0, r.IntN(2) == 0, r.IntN(3) == 0, r.IntN(3) == 0}
 	ts := jgen.Timestamp(r)
-	key := []string{"k", "a/b", " ", "ключ/1", "😀", strings.Repeat("long", 50)}[r.IntN(6)]
+	key := []string{"k", "a/b", " ", "ключ/1", "😀", strings.Repeat("long", 50), "a//b", "./k", "a/b/", ".."}[r.IntN(10)]
 	op := []string{"insert", "update", "update-old", "delete", "delete-old"}[r.IntN(5)]
 	var msg *state.ChangeMessage
 	old := value
@@ -259,6 +259,18 @@ func roundTrip[T any](run *vk.Run, r *rand.Rand, kind, scratch string, value T, 
 	state.RegisterCollection(mat, coll)
 	coll2 := state.NewTypedCollectionWithType[T](state.NewMemoryStore[T](), "other")
 	state.RegisterCollection(mat, coll2)
+	if op == "update" || op == "update-old" {
+		// an entity already stored under the key, and under keys a sloppy key function would conflate:
+		// the update must replace exactly its own entity with exactly the value it carries
+		for _, k := range []string{key, key + "/", "./" + key, strings.ReplaceAll(key, "/", "//")} {
+			pre, _ := state.Insert(k, other, state.WithEntityType(wantType))
+			b, _ := json.Marshal(pre)
+			if err := mat.Apply(&ebu.StoredEvent{Offset: "pre", Type: "state.ChangeMessage", Data: b}); err != nil {
+				viol("apply-error", fmt.Sprintf("Apply of an insert built by the helper failed: %v", err))
+				return
+			}
+		}
+	}
 	if !hasVal {
 		// something to delete
 		pre, _ := state.Insert(key, value, state.WithEntityType(wantType))
@@ -281,6 +293,13 @@ func roundTrip[T any](run *vk.Run, r *rand.Rand, kind, scratch string, value T, 
 		}
 	} else if ok {
 		viol("materialized-entity", "the entity is still present after its delete message")
+	}
+	if op == "update" || op == "update-old" {
+		for _, k := range []string{key + "/", "./" + key} {
+			if g, ok := coll.Get(k); !ok || !equal(g, other) {
+				viol("neighbour-key-touched", fmt.Sprintf("the entity stored under key %q changed (present=%v) when key %q was updated", k, ok, key))
+			}
+		}
 	}
 	if len(coll2.All()) != 0 {
 		viol("wrong-collection", "a collection of another entity type received the change")
@@ -313,17 +332,17 @@ func TestC19RoundTrip(t *testing.T) {
 		kind := kinds[i%len(kinds)]
 		switch i % 6 {
 		case 0, 1, 2:
-			roundTrip(run, r, kind, scratch, genEntity(r), "Entity", func(a, b Entity) bool {
+			roundTrip(run, r, kind, scratch, genEntity(r), genEntity(r), "Entity", func(a, b Entity) bool {
 				x, _ := json.Marshal(&a)
 				y, _ := json.Marshal(&b)
 				return jgen.JSONEqual(x, y)
 			})
 		case 3:
-			roundTrip(run, r, kind, scratch, Money{Cents: int64(r.IntN(100000))}, "Money(pointer-receiver MarshalJSON)", func(a, b Money) bool { return a == b })
+			roundTrip(run, r, kind, scratch, Money{Cents: int64(r.IntN(100000))}, Money{Cents: 1}, "Money(pointer-receiver MarshalJSON)", func(a, b Money) bool { return a == b })
 		case 4:
-			roundTrip(run, r, kind, scratch, Named{V: r.IntN(100)}, "Named(StateTypeName)", func(a, b Named) bool { return a == b })
+			roundTrip(run, r, kind, scratch, Named{V: r.IntN(100)}, Named{V: -1}, "Named(StateTypeName)", func(a, b Named) bool { return a == b })
 		case 5:
-			roundTrip(run, r, kind, scratch, map[string]int{str(r): i, "k": 1}, "map entity", func(a, b map[string]int) bool { return reflect.DeepEqual(a, b) })
+			roundTrip(run, r, kind, scratch, map[string]int{str(r): i, "k": 1}, map[string]int{"stale": 9}, "map entity", func(a, b map[string]int) bool { return reflect.DeepEqual(a, b) })
 		}
 	}
 }
